@@ -6434,14 +6434,15 @@ def aten_mean_complex(self: TReal, dtype: int = -1) -> TReal:
 def aten_mean_dim(self: TReal, dim: INT64, keepdim: bool = False, dtype: int = -1) -> TReal:
     """mean.dim(Tensor self, int[1]? dim, bool keepdim=False, *, ScalarType? dtype=None) -> Tensor"""
 
-    if len(self.shape) == 0:
+    self_is_scalar = len(self.shape) == 0
+    if dtype != -1 and dtype is not None:
+        # PyTorch casts the input before reducing: mean(x, dim, dtype=d) == mean(x.to(d), dim)
+        self = op.Cast(self, to=dtype)
+    if self_is_scalar:
         result = self
     else:
         dims = op.Reshape(dim, op.Constant(value_ints=[-1]))
         result = op.ReduceMean(self, dims, keepdims=keepdim)
-
-    if dtype != -1 and dtype is not None:
-        result = op.Cast(result, to=dtype)
 
     return result
 
@@ -9752,12 +9753,14 @@ def aten_sub_complex(self: TReal, other: TReal, alpha: float = 1.0) -> TReal:
 @torch_op("aten::sum", trace_only=True)
 def aten_sum(self: TReal, dtype: int = -1) -> TReal:
     """sum(Tensor self, *, ScalarType? dtype=None) -> Tensor"""
-    if len(self.shape) == 0:
+    self_is_scalar = len(self.shape) == 0
+    if dtype != -1 and dtype is not None:
+        # PyTorch casts the input before reducing: sum(x, dtype=d) == sum(x.to(d))
+        self = op.Cast(self, to=dtype)
+    if self_is_scalar:
         result = op.Identity(self)
     else:
         result = op.ReduceSum(self, keepdims=False)
-    if dtype != -1 and dtype is not None:
-        result = op.Cast(result, to=dtype)
     return result
 
 
@@ -9782,7 +9785,11 @@ def aten_sum_dim_IntList(
     self: TReal, dim: Optional[int] = None, keepdim: bool = False, dtype: int = -1
 ) -> TReal:
     """sum.dim_IntList(Tensor self, int[1]? dim, bool keepdim=False, *, ScalarType? dtype=None) -> Tensor"""
-    if len(self.shape) == 0:
+    self_is_scalar = len(self.shape) == 0
+    if dtype != -1 and dtype is not None:
+        # PyTorch casts the input before reducing: sum(x, dim, dtype=d) == sum(x.to(d), dim)
+        self = op.Cast(self, to=dtype)
+    if self_is_scalar:
         result = op.Identity(self)
     elif dim is None:
         result = op.ReduceSum(self, keepdims=keepdim)
@@ -9791,9 +9798,6 @@ def aten_sum_dim_IntList(
             dim = [dim]
         dim = common_ops.constant(dim, dtype=ir.DataType.INT64)
         result = op.ReduceSum(self, dim, keepdims=keepdim)
-
-    if dtype != -1 and dtype is not None:
-        result = op.Cast(result, to=dtype)
 
     return result
 
